@@ -29,10 +29,15 @@ type Wiring struct {
 	Out    []string `json:"out"` // model: what the caller sees
 	Work   int      `json:"wk"`  // model: fetches
 	Bound  int      `json:"bd"`  // model: bound on fetches for this wiring
+
+	k string
 }
 
 func (w *Wiring) key() string {
-	return fmt.Sprintf("%s/%d/%s/%v/%v/%d", w.Walker, w.N, strings.Join(w.Kind, ","), w.A, w.B, w.Start)
+	if w.k == "" {
+		w.k = fmt.Sprintf("%s/%d/%s/%v/%v/%d", w.Walker, w.N, strings.Join(w.Kind, ","), w.A, w.B, w.Start)
+	}
+	return w.k
 }
 
 type layout struct {
